@@ -530,6 +530,12 @@ class BuiltinMixin:
                 return
             yield st, V(INT, z3.IndexOf(recv.t, z3.Unit(x.t), 0))
             return
+        if name == 'sort':
+            # in-place sort: the list becomes a permutation of itself (same model as sorted())
+            out = self.b_sorted([recv], dict(kw), st, exits, line)
+            for s2 in writeback(out):
+                yield s2, NONE_V
+            return
         if name == 'copy':
             yield st, recv
             return
